@@ -1033,6 +1033,11 @@ class ExprMixin:
                 return self.conc_dict_lookup(obj, idx, node)
         if isinstance(base, VRef):
             return self.call_method(base, "__getitem__", [idx], {}, node, st)
+        if isinstance(base, VOpt) and not self.spec:
+            # x[i] for an Optional x: TypeError ('NoneType' object is not subscriptable) exactly when x is None, otherwise the
+            # subscript of its payload
+            self.may_raise(base.isnone, "TypeError", node)
+            return self.index(base.val, idx, node, st)
         if isinstance(base, VRec) and self.classes.get(base.cls, {}).get("dict_keys") and isinstance(idx, str):
             # d["k"] on a dict with a fixed set of string keys, modelled as a record (class entry "dict_keys": True - the dict
             # has exactly the record's field names as keys): the field for a key, KeyError otherwise (cf. d.get in call_method)
